@@ -560,7 +560,27 @@ class Fn:
             if k == "deref":
                 # deref of a reference-to-place collapses
                 if e[0] == "ref":
-                    e = e[1]
+                    inner = e[1]
+                    if isinstance(inner, tuple) and inner[0] == "local" and len(inner) > 2 and idx == len(proj) - 1:
+                        # `*&local` read as a value: what the local held when the reference was taken
+                        e = inner[2]
+                        continue
+                    if isinstance(inner, tuple) and inner[0] == "place" and isinstance(inner[1], tuple) and inner[1][:1] == ("ref",) \
+                            and isinstance(inner[1][1], tuple) and inner[1][1][0] == "local" and len(inner[1][1]) == 2:
+                        # `*&local.path`: the value the local holds now, projected
+                        val = self.local_expr(inner[1][1][1], b, i)
+                        for q in inner[2]:
+                            if isinstance(q, tuple) and q[0] == "as":
+                                val = ("as", val, q[1])
+                            elif isinstance(q, str):
+                                val = self._select(val, q, None)
+                            else:
+                                val = None
+                                break
+                        if val is not None:
+                            e = val
+                            continue
+                    e = inner
                     continue
                 # memory load: everything after this deref up to the next deref is a path
                 rest = proj[idx + 1:]
